@@ -8,7 +8,7 @@ import re._constants as C
 from .. import AnalysisError, rx, flow
 from ..fold import is_unknown, RegexVal
 from ..srcmodel import walk_local, norm, dotted, guards, enclosing_stmt, parent
-from . import common
+from . import common, families as F
 from .c01 import word_tables
 from .c07 import stripset
 
@@ -420,7 +420,7 @@ def _pm_needs_pm(ctx):
     words that merely contain 'pr' / 'p' must not match."""
     rv = ctx.fold.get('rgxlib.twprge', 'pm_regex')
     L = common.lang(ctx, rv)
-    for w in ('private', 'property', 'approximately', 'April', 'improvements', 'pr', 'PR'):
+    for w in tuple(dict.fromkeys(('private', 'property', 'approximately', 'April', 'improvements', 'pr', 'PR') + F.ORDINARY_WORDS)):
         hit = [sp for sp in L.search_spans(w) if sp[1] > sp[0]]
         ctx.check(not hit, 'RX-LANG-NEG', f"pm_regex does not fire inside {w!r}",
                   detail_bad=f"pm_regex matches {(w[hit[0][0]:hit[0][1]] if hit else '')!r} in {w!r}: any such word within 25 characters after a "
